@@ -4,7 +4,7 @@ from __future__ import annotations
 
 import ast
 
-from vlib.core import AnalysisError, Repo, Report, norm, own_nodes
+from vlib.core import AnalysisError, Repo, Report, canon, norm, own_nodes
 from vlib.effects import GRAPH, STORE, Effects
 
 EXPLANATION = (
@@ -57,11 +57,12 @@ def drop_benign(eff: Effects, rep: Report, rule: str) -> None:
     """remove the table's benign mutation/call events before solving; each is reported as an instance"""
     eff.interpret_all()
     seen = set()
+    benign = {(a, canon(b)): (a, b) for (a, b) in BENIGN}
     for full, fi in eff.funcs.items():
         base = full.split("@")[0]
         keep = []
         for ev in fi.events:
-            key = (base, norm(ev[1]))
+            key = benign.get((base, canon(ev[1])))
             if key in BENIGN:
                 if key not in seen:
                     seen.add(key)
@@ -200,6 +201,25 @@ def run(repo: Repo, rep: Report) -> None:
         for o in outs:
             if o not in fi.params:
                 raise AnalysisError("out-param table row stale: %s has no parameter %s" % (m, o))
+
+    # ------------------------------------------------- other read-only views
+    rep.rule("C13.g-views-pure",
+             "read methods of the graph views and helpers - Collection (len/iter/index/getitem/n3), Resource (pattern access, value, items, "
+             "closures, qname), rdflib.util.find_roots/get_tree, Result.serialize, void.generateVoID (source graph) - never mutate the graph they read", floor=20)
+    views = [("rdflib.collection.Collection", ("__len__", "__iter__", "index", "__getitem__", "n3", "_get_container", "_end"), {"self"}),
+             ("rdflib.resource.Resource", ("subjects", "predicates", "objects", "subject_predicates", "subject_objects", "predicate_objects", "value", "items",
+                                           "transitive_objects", "transitive_subjects", "qname", "__iter__", "__getitem__", "__str__", "__eq__", "__hash__", "__lt__"), {"self"}),
+             ("rdflib.container.Container", ("__len__", "__getitem__", "items", "index", "n3", "type_of_conatiner", "_get_container"), {"self"})]
+    for cls, meths, src in views:
+        for meth in meths:
+            m = cls + "." + meth
+            if m in eff.funcs:
+                check_entry(eff, rep, "C13.g-views-pure", m, src, "%s.%s" % (cls.rsplit(".", 1)[1], meth))
+    for fn, src in (("rdflib.util.find_roots", {"graph"}), ("rdflib.util.get_tree", {"graph"}), ("rdflib.query.Result.serialize", {"self"}),
+                    ("rdflib.void.generateVoID", {"g"}), ("rdflib.graph.Graph.__reduce__", {"self"}), ("rdflib.graph.Graph.absolutize", {"self"}),
+                    ("rdflib.graph.Graph.qname", {"self"}), ("rdflib.graph.Graph.compute_qname", {"self"})):
+        if fn in eff.funcs:
+            check_entry(eff, rep, "C13.g-views-pure", fn, src, fn.split(".", 1)[1])
 
     # ------------------------------------------------- store read methods
     rep.rule("C13.f-store-reads-dont-write",
